@@ -77,7 +77,8 @@ func (a *sessionAwareAdapter) cleaner() {
 		for i := len(a.packets) - 1; i >= 0; i-- {
 			packet := a.packets[i]
 			if packet.HasExpired(a.maxDisconnectDuration) {
-				a.packets = append(a.packets[:i], a.packets[i+1:]...)
+				// Packets are in order of emission: everything up to the last expired one has expired.
+				a.packets = append([]*PersistedPacket(nil), a.packets[i+1:]...)
 				break
 			}
 		}
